@@ -898,22 +898,22 @@ Proof. intros H. rewrite chain_app, H. reflexivity. Qed.
 Lemma len_N_length s : len_N s = N.of_nat (length s).
 Proof. induction s as [|c s IH]; [reflexivity|]. cbn [len_N length]. rewrite IH. lia. Qed.
 
-(* Slice: the result when it returns *)
+(* Slice: the result *)
 Theorem slice_result from to s r : slice_transform from to s = Ok r ->
   let len := len_N s in
   let to' := N.min (match to with Some t => t | None => len end) len in
-  (len < from /\ r = []) \/
+  r = [] \/
   (from <= to' /\ r = firstn (N.to_nat (to' - from)) (skipn (N.to_nat from) s) /\ len_N r = to' - from).
 Proof.
   unfold slice_transform. set (len := len_N s). set (t0 := match to with Some t => t | None => len end). intros H. cbn zeta.
   destruct (N.ltb len from) eqn:E1.
-  - left. injection H as <-. apply N.ltb_lt in E1. split; [exact E1|reflexivity].
-  - right. apply N.ltb_ge in E1.
+  - left. injection H as <-. reflexivity.
+  - apply N.ltb_ge in E1.
     assert ((if N.ltb len t0 then len else t0) = N.min t0 len) as Et.
     { destruct (N.ltb len t0) eqn:E; [apply N.ltb_lt in E|apply N.ltb_ge in E]; lia. }
-    rewrite Et in H. destruct (N.ltb (N.min t0 len) from) eqn:E2; [discriminate|]. apply N.ltb_ge in E2.
-    destruct (is_char_boundary s from && is_char_boundary s (N.min t0 len)); [|discriminate]. injection H as <-.
-    split; [exact E2|]. split; [reflexivity|]. rewrite len_N_length, firstn_length, skipn_length.
+    rewrite Et in H. destruct (N.ltb (N.min t0 len) from) eqn:E2; [left; injection H as <-; reflexivity|]. apply N.ltb_ge in E2.
+    destruct (is_char_boundary s from && is_char_boundary s (N.min t0 len)); [|left; injection H as <-; reflexivity]. injection H as <-.
+    right. split; [exact E2|]. split; [reflexivity|]. rewrite len_N_length, firstn_length, skipn_length.
     unfold len in *. rewrite len_N_length in *. lia.
 Qed.
 
@@ -928,24 +928,27 @@ Proof.
   apply N.ltb_ge in E. assert (t = len_N s) as -> by lia. rewrite N.ltb_irrefl. reflexivity.
 Qed.
 
-(* Slice: it panics exactly when from lies within the string and either exceeds the clamped end, or one of the two
-   bounds falls inside a multi-byte character *)
-Theorem slice_panics_iff from to s :
+(* Slice never panics (repaired crate): it always returns, and returns the empty string exactly in the cases where the
+   indexing str[from..to] of the pinned code panicked: from within the string and either beyond the clamped end, or
+   one of the two bounds inside a multi-byte character *)
+Theorem slice_total from to s : exists r, slice_transform from to s = Ok r.
+Proof.
+  unfold slice_transform. destruct (N.ltb (len_N s) from); [eexists; reflexivity|].
+  destruct (N.ltb _ from); [eexists; reflexivity|]. destruct (_ && _); eexists; reflexivity.
+Qed.
+
+Theorem slice_degenerate from to s :
   let len := len_N s in
   let to' := N.min (match to with Some t => t | None => len end) len in
-  (exists site, slice_transform from to s = Panic site)
-  <-> from <= len /\ (to' < from \/ is_char_boundary s from && is_char_boundary s to' = false).
+  from <= len /\ (to' < from \/ is_char_boundary s from && is_char_boundary s to' = false) ->
+  slice_transform from to s = Ok [].
 Proof.
   cbn zeta. unfold slice_transform. set (len := len_N s). set (t0 := match to with Some t => t | None => len end).
   assert ((if N.ltb len t0 then len else t0) = N.min t0 len) as Et.
   { destruct (N.ltb len t0) eqn:E; [apply N.ltb_lt in E|apply N.ltb_ge in E]; lia. }
-  rewrite Et. destruct (N.ltb len from) eqn:E1.
-  - apply N.ltb_lt in E1. split; [intros [site H]; discriminate|intros [H _]; lia].
-  - apply N.ltb_ge in E1. destruct (N.ltb (N.min t0 len) from) eqn:E2.
-    + apply N.ltb_lt in E2. split; [intros _; split; [exact E1|left; exact E2]|intros _; eexists; reflexivity].
-    + apply N.ltb_ge in E2. destruct (is_char_boundary s from && is_char_boundary s (N.min t0 len)) eqn:E3.
-      * split; [intros [site H]; discriminate|intros [_ [H|H]]; [lia|discriminate]].
-      * split; [intros _; split; [exact E1|right; reflexivity]|intros _; eexists; reflexivity].
+  rewrite Et. intros [H1 H2]. destruct (N.ltb len from) eqn:E1; [reflexivity|].
+  destruct (N.ltb (N.min t0 len) from) eqn:E2; [reflexivity|]. apply N.ltb_ge in E2.
+  destruct H2 as [H2|H2]; [lia|]. rewrite H2. reflexivity.
 Qed.
 
 (* on ASCII every index is a char boundary: Slice never panics for ordered bounds *)
